@@ -147,56 +147,77 @@ def _same_class(res, want, prop):
     return bool(v) and prop in v["props"] and [v["oracle"], v["callee"]] == want
 
 
-def shrink(profile, prop, seed, cfg, ops, want, stop_props, budget=400):
-    """ddmin over the operation list, then per-operation simplification; every attempt in a fresh fork."""
+def _shrink_test(args):
+    profile, seed, cand, cfg, stop_props, want, prop = args
+    os.environ.setdefault("OPENBLAS_NUM_THREADS", "1")
     from .api import load
 
     load()
+    res = forked_run(profile, seed, ops=cand, cfg=cfg, stop_props=stop_props)
+    return _same_class(res, want, prop)
+
+
+def shrink(profile, prop, seed, cfg, ops, want, stop_props, budget=400, workers=None):
+    """ddmin over the operation list, then per-operation simplification; every attempt in a fresh fork.
+
+    The candidates of one round are evaluated concurrently; the first successful candidate *in list
+    order* is taken, so the result does not depend on timing.
+    """
+    workers = workers or min(16, os.cpu_count() or 4)
+    ctx = multiprocessing.get_context("fork")
     attempts = 0
+    with cf.ProcessPoolExecutor(max_workers=workers, mp_context=ctx) as ex:
 
-    def test(cand):
-        nonlocal attempts
-        attempts += 1
-        res = forked_run(profile, seed, ops=cand, cfg=cfg, stop_props=stop_props)
-        return _same_class(res, want, prop)
+        def first_success(cands):
+            nonlocal attempts
+            if not cands:
+                return None
+            attempts += len(cands)
+            oks = list(ex.map(_shrink_test, [(profile, seed, c, cfg, stop_props, want, prop) for c in cands]))
+            for i, ok in enumerate(oks):
+                if ok:
+                    return i
+            return None
 
-    cur = list(ops)
-    n = 2
-    while len(cur) >= 2 and attempts < budget:
-        size = max(1, len(cur) // n)
-        subsets = [cur[i: i + size] for i in range(0, len(cur), size)]
-        reduced = False
-        for i in range(len(subsets)):
-            cand = [x for j, s in enumerate(subsets) if j != i for x in s]
-            if cand and test(cand):
-                cur = cand
+        cur = list(ops)
+        n = 2
+        while len(cur) >= 2 and attempts < budget:
+            size = max(1, len(cur) // n)
+            subsets = [cur[i: i + size] for i in range(0, len(cur), size)]
+            cands = [[x for j, s in enumerate(subsets) if j != i for x in s] for i in range(len(subsets))]
+            cands = [c for c in cands if c]
+            i = first_success(cands)
+            if i is not None:
+                cur = cands[i]
                 n = max(n - 1, 2)
-                reduced = True
-                break
-            if attempts >= budget:
-                break
-        if not reduced:
-            if n >= len(cur):
-                break
-            n = min(len(cur), n * 2)
-    # one-by-one removal pass
-    i = 0
-    while i < len(cur) and len(cur) > 1 and attempts < budget:
-        cand = cur[:i] + cur[i + 1:]
-        if test(cand):
-            cur = cand
-        else:
-            i += 1
-    # per-operation simplification
-    for i in range(len(cur)):
-        for field, val in (("fault", None), ("env", None), ("invalid", None), ("transform", None)):
-            if attempts >= budget:
-                break
-            if cur[i].get(field):
-                cand = [dict(o) for o in cur]
-                cand[i][field] = val
-                if test(cand):
-                    cur = cand
+            else:
+                if n >= len(cur):
+                    break
+                n = min(len(cur), n * 2)
+        # one-by-one removal until a fixpoint
+        changed = True
+        while changed and len(cur) > 1 and attempts < budget:
+            changed = False
+            cands = [cur[:i] + cur[i + 1:] for i in range(len(cur))]
+            i = first_success(cands)
+            if i is not None:
+                cur = cands[i]
+                changed = True
+        # per-operation simplification
+        for field in ("fault", "env", "invalid", "transform"):
+            changed = True
+            while changed and attempts < budget:
+                changed = False
+                idxs = [i for i in range(len(cur)) if cur[i].get(field)]
+                cands = []
+                for i in idxs:
+                    c = [dict(o) for o in cur]
+                    c[i][field] = None
+                    cands.append(c)
+                j = first_success(cands)
+                if j is not None:
+                    cur = cands[j]
+                    changed = True
     return cur, attempts
 
 
